@@ -1,9 +1,10 @@
+import os
 """Shared machinery of the Borno checks: building, running implementation and
 model on the same cases, projecting and comparing observables."""
 import base64, hashlib, json, os, re, shutil, subprocess, sys, time, unicodedata
 
 ROOT = '/verif'
-REPO = '/repo'
+REPO = os.environ.get('BORNO_REPO', '/repo')   # default: the repository itself; tools/seedtest.py points the checks at a scratch worktree
 BUILD = os.path.join(ROOT, 'build')
 COQ = os.path.join(ROOT, 'coq')
 GOENV = dict(os.environ, GOFLAGS='-mod=mod', GOPROXY='off', GOSUMDB='off', GOTOOLCHAIN='local',
@@ -79,7 +80,8 @@ def build_impl():
     # drop older builds
     par = os.path.join(BUILD, 'impl')
     if os.path.isdir(par):
-        for x in os.listdir(par):
+        olds = sorted(os.listdir(par), key=lambda x: os.path.getmtime(os.path.join(par, x)))
+        for x in olds[:-4]:
             shutil.rmtree(os.path.join(par, x), ignore_errors=True)
     os.makedirs(d, exist_ok=True)
     shutil.copy(os.path.join(REPO, 'go.mod'), os.path.join(d, 'go.mod'))
@@ -89,6 +91,8 @@ def build_impl():
     dd = os.path.join(d, 'dump')
     shutil.copytree(os.path.join(ROOT, 'harness', 'go', 'dump'), dd, dirs_exist_ok=True)
     shutil.copy(os.path.join(REPO, 'go.sum'), os.path.join(dd, 'go.sum'))
+    gm = open(os.path.join(dd, 'go.mod')).read().replace('=> /repo', '=> ' + REPO)
+    open(os.path.join(dd, 'go.mod'), 'w').write(gm)
     sh(['go', 'build', '-o', os.path.join(d, 'godump'), './godump'], cwd=dd, env=GOENV)
     open(ok, 'w').write(hv)
     return d
